@@ -39,12 +39,16 @@ type CancelPlan struct {
 }
 
 type Scenario struct {
-	LaneSize  int          `json:"lane_size"`
-	QueueSize int          `json:"queue_size"`
-	TimeoutMs int          `json:"timeout_ms"`       // PushTask timeout: 1 (timeouts occur) or 3600000
-	Warmup    []PushSpec   `json:"warmup,omitempty"` // pushed (by one producer) and drained before the pins
-	Pins      []int        `json:"pins,omitempty"`
-	Rush      bool         `json:"rush,omitempty"` // push, cancel and Wait right after New, without settling
+	LaneSize  int        `json:"lane_size"`
+	QueueSize int        `json:"queue_size"`
+	TimeoutMs int        `json:"timeout_ms"`       // PushTask timeout: 1 (timeouts occur) or 3600000
+	Warmup    []PushSpec `json:"warmup,omitempty"` // pushed (by one producer) and drained before the pins
+	Pins      []int      `json:"pins,omitempty"`
+	Rush      bool       `json:"rush,omitempty"` // push, cancel and Wait right after New, without settling
+	// SlowPoint/SlowLane: the hook holds that lane's goroutine for 100 µs at that point on every hit
+	// (a directed delay at a genuine preemption point, on top of the hashed perturbation)
+	SlowPoint string       `json:"slow_point,omitempty"`
+	SlowLane  int          `json:"slow_lane,omitempty"`
 	Producers [][]PushSpec `json:"producers"`
 	Cancel    CancelPlan   `json:"cancel"`
 	PostPush  int          `json:"post_push"` // pushes per lane issued after the cancel returned
@@ -177,6 +181,9 @@ func hook(ctx context.Context, point string, lane int) {
 	}
 	if c := sc.spec.Cancel; c.Kind == "hook" && c.Point == point && c.Hit == n {
 		sc.doCancel(fmt.Sprintf("%s#%d", point, n))
+	}
+	if sc.spec.SlowPoint == point && sc.spec.SlowLane == lane {
+		time.Sleep(100 * time.Microsecond)
 	}
 	if sc.spec.Perturb {
 		h := fnv.New32a()
